@@ -5,6 +5,8 @@ go 1.25.7
 require (
 	github.com/anishathalye/porcupine v1.3.0
 	github.com/nuetzliches/hookaido v0.0.0
+	google.golang.org/grpc v1.79.1
+	google.golang.org/protobuf v1.36.11
 	modernc.org/libc v1.67.6
 	modernc.org/sqlite v1.45.0
 	pgregory.net/rapid v1.3.0
@@ -41,8 +43,6 @@ require (
 	golang.org/x/text v0.33.0 // indirect
 	google.golang.org/genproto/googleapis/api v0.0.0-20260128011058-8636f8732409 // indirect
 	google.golang.org/genproto/googleapis/rpc v0.0.0-20260128011058-8636f8732409 // indirect
-	google.golang.org/grpc v1.79.1 // indirect
-	google.golang.org/protobuf v1.36.11 // indirect
 	modernc.org/mathutil v1.7.1 // indirect
 	modernc.org/memory v1.11.0 // indirect
 )
